@@ -13,6 +13,11 @@ CLAIMED = {
             'the n//2-origin reference model.  Within the bound the verdict is complete: placement is decided for every sample.',
             'Trusted: numpy indexing, np.pad mode semantics; bound on axis length (quick 12 / thorough 24 in 1-D, 6 / 9 in the 4-index product).',
             'explicit-state bounded-exhaustive scope exploration of the implementation vs exact reference model', 'DESIGN.md 4/C04'),
+    'C01': ('For every enumerated (input shape, output shape, Q form, shift form, method, direction, precision) the full operator matrix of the real transform '
+            '(all real deltas, all i*deltas, one dense array) is compared with the textbook double sum, so the verdict holds for every input array of that shape; '
+            'plus an explicit-state BFS over the shared executors / config.precision (cache-colliding call alphabet) whose invariant is bit-identity with a fresh executor and agreement with the sum.',
+            'Trusted: numpy matmul/FFT/exp; shapes up to 4x4 (quick) / 7x7 (thorough); Q and shift from finite alphabets (int/float/tuple/list forms, Q<1, per-axis, integer and fractional shifts); history depth 4 / 5; tolerance 2e3 eps (measured honest error <= 70 eps).',
+            'bounded-exhaustive scope exploration with operator-matrix (basis) closure + explicit-state BFS over executor cache / precision histories', 'DESIGN.md 4/C01'),
 }
 
 PENDING_REASON = 'check not built yet in this revision (planned: DESIGN.md section 4); not claimed until its explorer exists and is silent on the fixed tree'
